@@ -13,6 +13,7 @@ CONSTANTS
   FixPred = %(fp)s
   FixLeave = %(fl)s
   FixWrap = %(fw)s
+  FixDead = %(fd)s
   MaxTry = 3
   TrackCov = FALSE
   Goal = "none"
@@ -48,9 +49,35 @@ def true_succ_list(ids, n, L=4):
             break
     return out
 
+def consecutive_leaves(name, n, leavers, survivors_settle=True):
+    """ring of n nodes (rank order = name order) built by joins and settled; then the nodes of `leavers` leave gracefully one after the
+    other with NO maintenance round in between (the periodic tasks are parked: they are simply slower than the leaves); then the quiet period"""
+    layout = [{"n": "n%d" % i} for i in range(n)]
+    steps = [{"do": "create", "n": "n0"}]
+    for i in range(1, n):
+        steps += [{"do": "start", "op": "j%d" % i, "kind": "join", "n": "n%d" % i, "via": "n0"}, {"do": "steps", "op": "j%d" % i}, {"do": "settle"}]
+    steps += [{"do": "settle", "rounds": 8}]
+    for i in leavers:
+        steps += [{"do": "start", "op": "l%d" % i, "kind": "leave", "n": "n%d" % i}, {"do": "steps", "op": "l%d" % i}]
+    steps += [{"do": "settle", "rounds": 24}]
+    return {"name": name, "layout": layout, "variant": 1, "gates": ["join:", "leave:", "start:", "rtj:lock"], "steps": steps, "fingers": True}
+
+
 def run(ck):
     t = lambda b: "TRUE" if b else "FALSE"
-    r = ck.tlc("MC_ChordRing", LIVE_CFG % dict(fp=t(ringcheck.CODE_FIXPRED), fl=t(ringcheck.CODE_FIXLEAVE), fw=t(ringcheck.CODE_FIXWRAP)),
+    # design: a member whose successor list names departed nodes only is a dead end of convergence.  Instance with a list of 2 entries
+    # (the code's 4 need 7 nodes): three consecutive successors of a node leave
+    for cfgname, fd in (("MC_ChordRing_dead.cfg", ringcheck.CODE_FIXDEAD), ("MC_ChordRing_dead.cfg", False)):
+        if fd and not ringcheck.CODE_FIXDEAD:
+            continue
+        with open(__import__("os").path.join(vf.VERIF, "spec", cfgname)) as f:
+            text = f.read().replace("FixDead = TRUE", "FixDead = %s" % t(fd))
+        rd = ck.tlc("MC_ChordRing", text, allow_error=True, timeout=1500, workers=min(vf.NCPU, 8), count=fd == ringcheck.CODE_FIXDEAD)
+        if fd == ringcheck.CODE_FIXDEAD and rd.error:
+            ck.notes.append("ChordRing (as implemented) reaches a state in which a member's successor list names departed nodes only (%s): the real fixpoints below decide" % rd.error["name"])
+        if not fd and ringcheck.CODE_FIXDEAD and not rd.error:
+            raise vf.Infra("ChordRing without the fallback is expected to violate InvNoDeadEnd (vacuous instance?)")
+    r = ck.tlc("MC_ChordRing", LIVE_CFG % dict(fp=t(ringcheck.CODE_FIXPRED), fl=t(ringcheck.CODE_FIXLEAVE), fw=t(ringcheck.CODE_FIXWRAP), fd=t(ringcheck.CODE_FIXDEAD)),
                allow_error=True, timeout=1500, workers=min(vf.NCPU, 12))
     lead = r.error is not None
     if lead:
@@ -68,6 +95,13 @@ def run(ck):
             sc = ringlib.Gen(ck.rng, **kw).make("churn-%d-%d" % (ck.seed, i))
             sc["fingers"] = True
             scenarios.append(sc)
+        # more consecutive successors leave than the successor list has entries, no maintenance round in between
+        scenarios.append(consecutive_leaves("consecutive-leaves-7-two-remain", 7, [1, 2, 3, 4, 5]))
+        scenarios.append(consecutive_leaves("consecutive-leaves-7-one-remains", 7, [1, 2, 3, 4, 5, 6]))
+        scenarios.append(consecutive_leaves("consecutive-leaves-9-four-remain", 9, [2, 3, 4, 5, 6]))
+        if ck.thorough:
+            scenarios.append(consecutive_leaves("consecutive-leaves-10-descending", 10, [7, 6, 5, 4, 3, 2]))
+            scenarios.append(consecutive_leaves("consecutive-leaves-12-two-runs", 12, [1, 2, 3, 4, 5, 7, 8, 9, 10, 11]))
     ev = ringlib.run_scenarios(ck, scenarios, binary=b, timeout=3000)
     ids_of, judged = {}, 0
     opdone = {}
@@ -135,5 +169,7 @@ def run(ck):
         raise vf.Infra("the ChordRing model does not converge but every real fixpoint was correct: model and code disagree")
     ck.rule = ("seeded histories over 4-7 (thorough: up to 12) nodes with random 48-bit ids: initial ring by sequential joins, then joins and leaves interleaved at gate "
                "granularity with maintenance calls, all operations finished, maintenance run to a fixpoint; at every such fixpoint each node's predecessor, successor "
-               "list and 48 fingers are compared with the true ring; non-trivial = more than one remaining member; distinct = (scenario, fixpoint)")
+               "list and 48 fingers are compared with the true ring; directed histories in which 5 and 6 consecutive successors of a node leave without a "
+               "maintenance round in between (more than the 4 entries of the successor list); design: ChordRing with a 2-entry list keeps InvNoDeadEnd "
+               "(without the fallback of stabilize it does not); non-trivial = more than one remaining member; distinct = (scenario, fixpoint)")
     ck.assumptions += ["'quiet period' = maintenance fixpoint with the periodic tasks parked (manual scheduler): a wrong fixpoint is a definitive violation"]
